@@ -80,13 +80,18 @@ impl ActionRegistry {
     }
 
     /// Snapshot the names and row counts of the registered tables that exist
-    /// in `state`.
+    /// in `state`, ordered by table name.
     pub fn table_sizes(&self, state: &ExecutionState) -> Vec<(&str, usize)> {
-        self.table_actions
+        let mut sizes: Vec<(&str, usize)> = self
+            .table_actions
             .iter()
             .filter(|(_, action)| action.is_live(state))
             .map(|(name, action)| (name.as_str(), action.row_count(state)))
-            .collect()
+            .collect();
+        // `table_actions` is a hash map seeded randomly per process: sort so that
+        // callers observe the same order on every run.
+        sizes.sort_unstable();
+        sizes
     }
 
     /// The shared [`UnionAction`] for this EGraph's union-find.
